@@ -110,6 +110,7 @@ type HarnessResult struct {
 	Outs         [][]string
 	SchedStates, SchedTransitions, SchedValidated int
 	Undecided           map[string]int // schedule layer: combinations outside the decided bound
+	soloReplies         []map[string]bool // schedule layer: per thread, the replies observed when running alone
 	ViolCount           map[string]int
 	NViolations         int
 	Unwinds             map[string]int
